@@ -762,7 +762,7 @@ func runC14(rc *RunCtx) {
 			rc.Probe("crowd_history_not_searched")
 			return
 		}
-		switch porcupine.CheckOperationsTimeout(regModel, ops, 20*time.Second) {
+		switch porcupine.CheckOperationsTimeout(regModel, ops, 8*time.Second) {
 		case porcupine.Illegal:
 			rc.Violate("non_linearizable", base, "history of %d operations by %d callers is not linearizable w.r.t. a register file: %s", len(ops), len(sc.Callers), describeHistory(recs))
 		case porcupine.Unknown:
